@@ -183,7 +183,7 @@ def compile_one(args):
     path, timeout = args
     t0 = time.time()
     try:
-        p = subprocess.run("timeout %d coqc -noglob -Q %s CG %s 2>&1" % (timeout, COQ, os.path.basename(path)),
+        p = subprocess.run("ulimit -v 14000000; timeout %d coqc -noglob -Q %s CG %s 2>&1" % (timeout, COQ, os.path.basename(path)),
                            cwd=os.path.dirname(path), shell=True, stdout=subprocess.PIPE, stderr=subprocess.STDOUT,
                            text=True, timeout=timeout + 30)
         return p.returncode, p.stdout[-1500:], time.time() - t0
@@ -191,17 +191,22 @@ def compile_one(args):
         return 124, "timeout", time.time() - t0
 
 
-def run_sym_tie(pid, symfile, workdir, timeout=240):
-    """returns dict(tied=[fn], paths=n, failed=[(fn, msg)], unsupported=[(fn, why)], wall)"""
+def run_sym_tie(pid, symfile, workdir, timeout=240, defer=(), workers=16):
+    """returns dict(tied=[fn], paths=n, failed=[(fn, msg)], unsupported=[(fn, why)], deferred=[fn], wall);
+    `defer`: regexes of functions whose lemmas are too heavy for this tier (they are listed, not attempted)"""
     t0 = time.time()
     os.makedirs(workdir, exist_ok=True)
-    res = {"tied": [], "paths": 0, "failed": [], "unsupported": [], "per_function_paths": {}}
+    res = {"tied": [], "paths": 0, "failed": [], "unsupported": [], "deferred": [], "per_function_paths": {}}
     jobs = []      # (record, path index, file)
     recs = []
     for line in open(symfile):
         d = json.loads(line)
         if d["unsupported"]:
             res["unsupported"].append((d["f"], d["unsupported"][:120]))
+            continue
+        if any(re.fullmatch(rx, d["f"]) for rx in defer):
+            if d["f"] not in res["deferred"]:
+                res["deferred"].append(d["f"])
             continue
         files = []
         try:
@@ -220,7 +225,7 @@ def run_sym_tie(pid, symfile, workdir, timeout=240):
         recs.append((d, files))
         for k, path in enumerate(files):
             jobs.append((d, k, path))
-    with concurrent.futures.ThreadPoolExecutor(max_workers=16) as ex:
+    with concurrent.futures.ThreadPoolExecutor(max_workers=workers) as ex:
         outs = list(ex.map(compile_one, [(p, timeout) for _, _, p in jobs]))
     bad = {}
     for (d, k, path), (rc, out, wall) in zip(jobs, outs):
@@ -246,7 +251,7 @@ def run_sym_tie(pid, symfile, workdir, timeout=240):
 
 if __name__ == "__main__":
     pid, symfile, workdir = sys.argv[1:4]
-    r = run_sym_tie(pid, symfile, workdir)
+    r = run_sym_tie(pid, symfile, workdir, timeout=int(os.environ.get("SYM_TIMEOUT", "240")))
     print("tied functions: %d (paths %d)  failed: %d  unsupported: %d  wall %.1fs" %
           (len(r["tied"]), r["paths"], len(r["failed"]), len(r["unsupported"]), r["wall"]))
     for fn, info in r["failed"]:
